@@ -63,3 +63,54 @@ Theorem C12_eratbig_cross_total : forall log2 n b acc, wf log2 b -> b <> [] -> (
   exists cl b', eb_cross n log2 b acc = Some (cl, b').
 Proof. exact eb_cross_total. Qed.
 Print Assumptions C12_eratbig_cross_total.
+
+(** ... in particular for every state Wheel210::addSievingPrime hands over, when the prime is added no later than in the
+    segment containing its square (Erat adds a sieving prime when prime^2 <= segmentHigh) *)
+From PS Require Import Spec.Primes Model.Wheel Proofs.EratBigInitP.
+Theorem C12_eratbig_asp_store_in_bounds : forall log2 b stop p low mi wi,
+  wf log2 b -> prime p -> 31 <= p -> p < 2 ^ 32 -> low mod 30 = 0 -> stop <= MAX64 -> low + 6 <= MAX64 ->
+  p * p <= low + 30 * 2 ^ log2 + 6 ->
+  addSievingPrime210 stop p low = Some (mi, wi) ->
+  exists b', eb_store log2 b p mi wi = Some b' /\ wf log2 b'.
+Proof. exact asp210_store_ok. Qed.
+Print Assumptions C12_eratbig_asp_store_in_bounds.
+
+(** EratMedium: a store through buckets_[wheelIndex] always has wheelIndex < 64 = buckets_.size(): when a prime is stored with
+    a wheel index below 64, and after every per-prime loop (the machine can only fail by a per-prime loop running out of fuel) *)
+From PS Require Import Model.CrossOff Model.EratMediumM Proofs.EratMediumP.
+Theorem C12_eratmedium_store_in_bounds : forall b prime idx w, (b = [] \/ length b = 64%nat) -> w < 64 ->
+  exists b', em_store b prime idx w = Some b' /\ length b' = 64%nat /\
+             Permutation (em_abs b') ((prime / 30, idx, w) :: em_abs b).
+Proof. exact em_store_ok. Qed.
+Print Assumptions C12_eratmedium_store_in_bounds.
+
+Theorem C12_eratmedium_cross_in_bounds : forall fuel size b, length b = 64%nat ->
+  (forall sp i w, In (sp, i, w) (em_abs b) -> cross fuel eratMediumSteps size sp i w <> None) ->
+  exists cl nb, em_cross fuel size b = Some (cl, nb).
+Proof. exact em_cross_safe. Qed.
+Print Assumptions C12_eratmedium_cross_in_bounds.
+
+(** SievingPrime packs (multipleIndex, wheelIndex) into 23 + 9 bits: lossless on the asserted ranges ... *)
+From PS Require Import Model.Config Model.BucketM Proofs.BucketP Proofs.TablesP.
+Theorem C12_sievingprime_pack_roundtrip : forall mi wi, mi <= MAX_MULTIPLEINDEX -> wi <= MAX_WHEELINDEX ->
+  sp_mi (sp_pack mi wi) = mi /\ sp_wi (sp_pack mi wi) = wi.
+Proof. exact pack_roundtrip. Qed.
+Print Assumptions C12_sievingprime_pack_roundtrip.
+
+(** ... and every index the wheel-30 loops of EratSmall / EratMedium store is in that range, for every configuration: the
+    loop leaves at most 6 * sievingPrime + 6, and 6 * (maxEratMedium_ / 30) + 6 <= MAX_MULTIPLEINDEX (EratBig stores
+    index mod sieveSize with sieveSize <= 2^23) *)
+Theorem C12_cross_index_bound : forall steps, forallb (step_small steps) (Nseq 64) = true ->
+  forall fuel size sp i w cl i' w',
+  w < 64 -> i <= size + (6 * sp + 6) -> cross fuel steps size sp i w = Some (cl, i', w') -> i' <= 6 * sp + 6 /\ w' < 64.
+Proof. exact cross_index_bound. Qed.
+Print Assumptions C12_cross_index_bound.
+
+Theorem C12_step_tables_small : forallb (step_small eratSmallSteps) (Nseq 64) = true /\ forallb (step_small eratMediumSteps) (Nseq 64) = true.
+Proof. exact (conj eratSmallSteps_small eratMediumSteps_small). Qed.
+Print Assumptions C12_step_tables_small.
+
+Theorem C12_medium_index_fits : forall l1 maxKB start stop,
+  6 * (a_maxMedium (initAlgorithms l1 maxKB start stop) / 30) + 6 <= MAX_MULTIPLEINDEX.
+Proof. exact medium_index_fits. Qed.
+Print Assumptions C12_medium_index_fits.
